@@ -446,7 +446,8 @@ func main() {
 			}
 			checkA(r, aw, c)
 		}
-		r.Finish()
+		irworld.CloseAll()
+	r.Finish()
 	}
 
 	t0 := time.Now()
@@ -538,5 +539,6 @@ func main() {
 		"a malformed public key argument makes the request transaction invalid",
 		"B: between histories the server is re-initialised by its own RPC-reconnection routine (restartFSChain); the harness checks epoch counter and timer state equal the initial ones",
 		"block i has timestamp i*1000 ms; epoch duration 100 s; the header of the NewEpoch block itself is not delivered")
+	irworld.CloseAll()
 	r.Finish()
 }
